@@ -15,4 +15,12 @@ void harness_init(void);
 #include <stdio.h>
 extern FILE* R;
 #define printf(...) fprintf(R, __VA_ARGS__)
+/* helpers of ops_more.c shared with ops_ts.c */
+struct errstat { size_t viol; size_t first; double maxerr; size_t outside; double amax; };
+int elem_size(int ty);
+void* make_data(const char* spec, int ty, size_t* n_out);
+void parse_dims(const char* s, size_t r[5]);
+int init_from_cfg(const char* cfg);
+double effective_bound(int ty, const void* data, size_t n, int mode, double absb, double rel, double* minv, double* maxv);
+void err_stats(int ty, const void* ori, const void* dec, size_t n, double e, double mn, double mx, struct errstat* st);
 #endif
